@@ -283,3 +283,90 @@ func TestVerifC12(t *testing.T) {
 	}
 	os.WriteFile(filepath.Join(out, "c12.stats.json"), []byte(fmt.Sprintf(`{"runs": %d}`, total)), 0o644)
 }
+
+
+// free-running writer and storing goroutine (no scheduler): content must equal the concatenation.
+// Run with -race in the thorough tier / after a broken tie.
+func TestVerifC12Stress(t *testing.T) {
+	out := os.Getenv("VERIF_OUT")
+	if out == "" {
+		t.Skip("VERIF_OUT not set")
+	}
+	rounds, _ := strconv.Atoi(os.Getenv("VERIF_ROUNDS"))
+	if rounds == 0 {
+		rounds = 60
+	}
+	seed, _ := strconv.ParseUint(os.Getenv("VERIF_SEED"), 10, 64)
+	x := seed*2654435761 + 12345
+	rnd := func(n int) int { x ^= x << 13; x ^= x >> 7; x ^= x << 17; return int(x % uint64(n)) }
+	type res struct {
+		Round, Writes, Want, Got int
+		FirstDiff                int
+		Ok                       bool
+	}
+	var bad []res
+	sizes := []int{0, 1, 100, 4096, 16 * 1024, 32*1024 - 1, 32 * 1024, 32*1024 + 1, 64 * 1024}
+	total := 0
+	for r := 0; r < rounds; r++ {
+		rw := NewReadWriter()
+		rw.Add(1)
+		var got bytes.Buffer
+		taken := make(chan int, 1024)
+		go func() {
+			defer rw.Done()
+			buf := make([]byte, 32*1024)
+			for {
+				n, err := rw.Read(buf)
+				got.Write(buf[:n])
+				select {
+				case taken <- n:
+				default:
+				}
+				if err != nil {
+					return
+				}
+			}
+		}()
+		var want bytes.Buffer
+		nw := 20 + rnd(60)
+		mode := r % 3 // 0: equal 32 KiB pieces paced with the storing side, 1: random sizes, 2: bursts
+		for i := 0; i < nw; i++ {
+			n := sizes[rnd(len(sizes))]
+			if mode == 0 {
+				n = 32 * 1024
+			}
+			p := make([]byte, n)
+			for j := range p {
+				p[j] = byte(i + j)
+			}
+			want.Write(p)
+			rw.Write(p)
+			if mode == 0 {
+				select { // wait until the storing side has taken something: writer exactly as fast as the reader
+				case <-taken:
+				case <-time.After(2 * time.Millisecond):
+				}
+			} else if mode == 2 && rnd(4) == 0 {
+				runtime.Gosched()
+			}
+		}
+		done := make(chan error, 1)
+		go func() { done <- rw.Close() }()
+		select {
+		case <-done:
+		case <-time.After(5 * time.Second):
+			bad = append(bad, res{Round: r, Writes: nw, Want: want.Len(), Got: -1})
+			continue
+		}
+		total++
+		if !bytes.Equal(got.Bytes(), want.Bytes()) {
+			fd := 0
+			for fd < got.Len() && fd < want.Len() && got.Bytes()[fd] == want.Bytes()[fd] {
+				fd++
+			}
+			bad = append(bad, res{Round: r, Writes: nw, Want: want.Len(), Got: got.Len(), FirstDiff: fd})
+		}
+	}
+	b, _ := json.Marshal(map[string]any{"rounds": rounds, "completed": total, "bad": bad})
+	os.WriteFile(filepath.Join(out, "c12.stress.json"), b, 0o644)
+}
